@@ -66,6 +66,11 @@ def Judge.observeReq (mac : Mac) (cfg : Cfg) (ref : Option Ref) (wellFormed : Bo
          else s!"violated:changed-request-not-403:status={impl.status}")
       else "ok"
 
+/-- Number of random bytes a random string stands for: a hex string encodes half its length
+(the statement's "at least 32 bytes" is about the random, not about its spelling). -/
+def randomBytes (random : Bytes) : Nat :=
+  if (Bytes.ofHex random).isSome then random.length / 2 else random.length
+
 /-- Verdict on one outgoing request: matching checksum under the target backend's secret,
 random of at least 32 bytes, not seen before. -/
 def Judge.observeOut (j : Judge) (mac : Mac) (target : Option Backend) (random body checksum : Bytes) : Judge × String :=
@@ -74,7 +79,7 @@ def Judge.observeOut (j : Judge) (mac : Mac) (target : Option Backend) (random b
   | none => (j', "violated:request-sent-to-unconfigured-backend")
   | some b =>
     if stmtChecksum mac b.secret random body != checksum then (j', "violated:outgoing-checksum-does-not-match")
-    else if random.length < 32 then (j', "violated:outgoing-random-shorter-than-32-bytes")
+    else if randomBytes random < 32 then (j', "violated:outgoing-random-shorter-than-32-bytes")
     else if j.seenRandoms.contains random then (j', "violated:outgoing-random-reused")
     else (j', "ok")
 
